@@ -26,7 +26,7 @@ LEVEL = "exploration"
 _DAYS = c01._DAYS
 
 OWN = [("tag", "#", "t1"), ("link", "pg"), ("prop", "k", "v"), ("iprop", "ik", ["a", "b"])]
-TAILS = ["single", "cont", "bullet", "bullet_lookalike", "bprop"]
+TAILS = ["single", "cont", "bullet", "bullet_lookalike", "bprop", "inner_blanks", "indent_only_line"]
 
 
 def _word(seed, i):
@@ -37,10 +37,15 @@ def _word(seed, i):
 
 
 def _mk_item(seed, kind, prio, ident, widx, tail):
-    item = c01._mk_item(seed, kind, prio, ident, [], tail if tail != "bprop" else "single")
+    item = c01._mk_item(seed, kind, prio, ident, [], tail if tail in c01.TAILS else "single")
     item.words = [_word(seed, i) for i in widx]
     if tail == "bprop":
         item.cont = [("  * ", [("bprop", "bk", ["some", "value"])]), ("  * ", [M.W("after")])]
+    elif tail == "inner_blanks":
+        # trailing blanks on an inner line, irregular spacing inside a line
+        item.cont = [("  mid line with trailing blanks  ", []), ("  spaced   words here", []), ("  last line", [])]
+    elif tail == "indent_only_line":
+        item.cont = [("   ", []), ("  * after an indentation-only line", [])]
     return item
 
 
@@ -126,7 +131,10 @@ def _cases(ctx):
                 first = _first_text(ctx.seed, widx)
                 if c01._is_written_prefix(k, p, ident, first):
                     continue
-                tails = ["single", "bullet_lookalike", "bprop"] if ctx.quick else TAILS
+                tails = ["single", "bullet_lookalike", "bprop", "inner_blanks", "indent_only_line"] if ctx.quick else TAILS
+                if ctx.quick and len(widx) == 2:
+                    rot = (widx[0] + widx[1]) % 5
+                    tails = [tails[rot], tails[(rot + 2) % 5]]
                 for tail in tails:
                     cases.append(["single", k, p, ident, widx, tail])
     for idxs in it.product(range(24), repeat=2):
